@@ -87,6 +87,20 @@ CLAIMED = {
             "estimate within the chi-square 6-sigma band of s2(1-p/n), ~0 noise-free, x k^2 under scaling, order independent; planted "
             "linear variance recovered.",
             NOTE + "Convergence of Powell/LSQR and the bias factor are observed statistically.", "§8 C10"),
+    "C12": ("Lean 4: order/span/midpoint theorems on an integer-nanosecond model of coords_time, same-instant identity for the zone conversion; direct differential correspondence with zoneinfo offsets; readers re-run under four host time zones",
+            "Proof: C12_order, C12_span, C12_midpoint (single-ended: midpoint to within 1 s; double-ended: time = end of forward), "
+            "C12_same_instant, C12_same_zone. Every run: coords_time over time stamps 1990-2037, acquisition times 1-600 s (whole and "
+            "fractional), IANA zone pairs incl. DST and half-hour zones: all nine coordinates in ns vs the model with zone offsets from "
+            "zoneinfo; the four readers on the bundled vendor files in subprocesses under TZ = UTC / New_York / Kolkata / Auckland "
+            "(+ another cwd, locale): identical coordinates; Sensortran against the epoch seconds of the binary header.",
+            NOTE + "The tz database is a parameter of the model; ambiguous local times are excluded and counted.", "§8 C12"),
+    "C13": ("Lean 4: chunk-invariance theorems (map, label selection, reductions) for every chunking in exact arithmetic; dask-vs-memory runs over chunkings and schedulers",
+            "Proof: C13_map_chunk_invariant, C13_filter_chunk_invariant, C13_sum_chunk_invariant (for every list of block sizes, "
+            "per-block evaluation + concatenation/combination = whole-array evaluation). Every run: dask's own chunking and per-block "
+            "results vs the model (exact); calibrate_single/double_ended and the Stokes variance estimators on dask-backed data with "
+            "chunkings incl. 1x1 under the synchronous and the threaded scheduler (1..16 workers) vs in memory (1e-10); Silixa / "
+            "AP Sensing readers with load_in_memory False/True/'auto' compared exactly.",
+            NOTE + "Weakest fit for the technique (DESIGN §8 C13): scheduling, thread interleavings and float re-association are observed, not proved.", "§8 C13"),
     "C14": ("Lean 4 theorems on the model of the Python slicing in shift_double_ended and of the argmin in suggest_cable_shift_double_ended + exhaustive differential correspondence",
             "Proof (all sizes, all |i|<=nx): C14_length, C14_pairing_nonneg/neg (st[j+i] with rst[j]; st[j] with rst[j-i]), "
             "C14_zero_identity, C14_compose_nonneg/neg, C14_inverse_interior, C14_suggest_member, C14_argmin_unique (a strictly "
